@@ -154,6 +154,8 @@ def plan(tier):
             if fe in SL.STREAM and fr in ("tcp", "ascii"):
                 scen.append("two-one-read")
             for s in scen:
+                if tier == "quick" and fr == "ascii" and s != "one":
+                    continue            # two ASCII frames per obligation: thorough tier (slow hex arithmetic)
                 p.append((fe, fr, s))
     return p
 
@@ -172,6 +174,7 @@ def obligations(tier):
             whys.append("broadcast")                   # the Twisted front-end has no broadcast option
         for why in whys:
             out.append(Obl("silent.%s.%s.%s" % (fe, fr, why), make_silent(fe, fr, why), timeout=T, contracts=CONTRACTS[fr], lemmas=LEMMAS[fr],
+                           whole_finding="KF-twisted-udp-listen-only-response" if (fe, why) == ("twisted-udp", "listen-only") else None,
                            bounds="%s front-end, %s framing: one request for which no response is due (%s); contents symbolic" % (fe, fr, why)))
         out.append(Obl("fail.%s.%s" % (fe, fr), make_fail(fe, fr), timeout=T, contracts=CONTRACTS[fr], lemmas=LEMMAS[fr],
                        bounds="%s front-end: FC3 request against a datastore whose every access raises -> exception 04" % fe))
